@@ -35,6 +35,9 @@ var extraArgs = []string{"b", "dest", "m", "e", "p", "nosuchvar", "m.k", "\"str\
 	srcName + ":2", srcName + ":4", srcName + ":6", srcName + ":-1", srcName + ":99999999999999999999", "false", "Resume", "STEPIN",
 	"18446744073709551615", "1", "2", "00" + "1", "+1", "0x1", "1.0", " ", " x", "a;b", "a b"}
 
+// calls of functions that the debugged programs define (g1..g3, e1, f) and of built-ins
+var progCalls = []string{"g3(1)", "g2(1)", "g1(1)", "f(1)", "e1(1)", "e1([1])", "g3(g3(1))", "len(m)", "g3(a)", "f(b)"}
+
 func vecCount() int { return 1 + len(argPool) + len(argPool)*len(argPool) }
 
 // vector v of the exhaustive enumeration (length <= 2)
@@ -288,6 +291,11 @@ func randLine(r *core.Rand, minArgs, maxArgs int) string {
 		if (cmd == "extract" || cmd == "inject") && n > 1 && r.Chance(2, 3) {
 			args[1] = []string{"a", "b", "m", "p", "dest"}[r.Intn(5)]
 		}
+		if cmd == "inject" && n > 2 && r.Chance(1, 2) {
+			// expressions that call functions of the debugged program (their
+			// bodies report to the debugger while the command is being handled)
+			args[2] = progCalls[r.Intn(len(progCalls))]
+		}
 	}
 	sep := " "
 	switch r.Intn(8) {
@@ -360,6 +368,16 @@ func Run(c *core.Ctx) {
 			}
 		})
 	}
+	// inject with an expression that calls into the debugged program: every state x every call
+	c.Parallel(len(envs), "inject-call", len(states)*len(progCalls), func(slot, idx int) {
+		st := &states[idx/len(progCalls)]
+		line := mkLine("inject", []string{"{T}", "a", progCalls[idx%len(progCalls)]}, " ")
+		k.runCase(envs[slot], slot, "inject-call", idx, st, []string{line})
+		nontriv(st, line)
+		if idx%29 == 5 {
+			c.Sample("inject-call", map[string]interface{}{"state": st.name, "line": line})
+		}
+	})
 	// random longer vectors
 	c.Parallel(len(envs), "rand-vec", c.Pick(8000, 400000), func(slot, idx int) {
 		r := c.Rng("rand-vec", idx)
